@@ -491,7 +491,7 @@ func rsemScenario(c *Ctx, sh *shard, scen int) {
 	// an external writer using the public format helpers: row data blocks without filter sections,
 	// footer through WriteFileFooter with absent file-level filters (absent filters cannot disqualify)
 	external := false
-	if !useFS && c.chance(0.3) {
+	if !useFS && c.chance(0.45) {
 		external = true
 		nExt := 2 + c.intn(6)
 		byPart := map[string][]*e2eRow{}
@@ -587,7 +587,8 @@ func rsemScenario(c *Ctx, sh *shard, scen int) {
 		must(bs.WriteFileFooter(w, &fm))
 		must(w.Close())
 		fmReg := &fm
-		if c.chance(0.6) {
+		partial := fm.BloomFilters.FieldBloomFilter == nil || fm.BloomFilters.TokenBloomFilter == nil || fm.BloomFilters.FieldTokenBloomFilter == nil
+		if partial || c.chance(0.5) {
 			// a MetaStore that registers what the file itself says (as FileSystemDataStore does): the metadata
 			// and the file-level filters go through the footer codec, partial filter sets included
 			h, err := mem.OpenFile(ctx, ptr)
@@ -604,7 +605,7 @@ func rsemScenario(c *Ctx, sh *shard, scen int) {
 			c.dist("e2e_external_registered", "writer-metadata")
 		}
 		must(meta.Update(ctx, []bs.WriteOperation{{FileMetadata: fmReg, FilePointerBytes: ptr}}, nil))
-		if c.chance(0.5) { // the engine merges externally written files too
+		if c.chance(0.3) { // the engine merges externally written files too
 			if _, err := eng.Merge(ctx); err != nil {
 				c.violation("e2e-merge-error", "Merge failed over an externally written file: "+err.Error(), nil)
 			} else {
